@@ -118,6 +118,7 @@ func (r *ReplicateMeteImpl) UpdateTaskDropCollectionMsg(ctx context.Context, msg
 		return msg.Base.IsReady(), nil
 	}
 	taskMsg.Base.ReadyChannels = lo.Union[string](taskMsg.Base.ReadyChannels, msg.Base.ReadyChannels)
+	taskMsgs[msg.Base.MsgID] = taskMsg
 	metaMsg, err := taskMsg.ConvertToMetaMsg()
 	if err != nil {
 		return false, err
@@ -188,6 +189,7 @@ func (r *ReplicateMeteImpl) UpdateTaskDropPartitionMsg(ctx context.Context, msg 
 		return msg.Base.IsReady(), nil
 	}
 	taskMsg.Base.ReadyChannels = lo.Union[string](taskMsg.Base.ReadyChannels, msg.Base.ReadyChannels)
+	taskMsgs[msg.Base.MsgID] = taskMsg
 	metaMsg, err := taskMsg.ConvertToMetaMsg()
 	if err != nil {
 		return false, err
